@@ -1,7 +1,9 @@
 import BddVerif.Drive.Tables
 import BddVerif.Gen.OpTables
 import BddVerif.Model.Nested
--- import BddVerif.Model.Relation   -- re-enabled once the B.RSt name clash with Model/Nested is resolved
+import BddVerif.Model.Relation
+import BddVerif.Model.VarSet
+import BddVerif.Model.NormalForm
 import BddVerif.Model.Substitute
 import BddVerif.Model.Rename
 import Std.Data.HashMap
@@ -53,28 +55,35 @@ def modelOp (pool : Array Arr) (f : List String) : Option (Option Arr) :=
     some (some (ternaryApply (p i) (p j) (p k) (op3OfTable t) (parseOptVar fa) (parseOptVar fb) (parseOptVar fc) (parseOptVar fo)))
   | ["exists", i, vs] => some (some (bddExists (p i) (parseVars vs)))
   | ["forall", i, vs] => some (some (bddForAll (p i) (parseVars vs)))
-  --REL | ["varexists", i, x] => some ((Rel.varExistsO (p i) (x.toNat?.getD 0)).toOption)
-  --REL | ["varforall", i, x] => some ((Rel.varForAllO (p i) (x.toNat?.getD 0)).toOption)
+  | ["varexists", i, x] => some ((Rel.varExistsO (p i) (x.toNat?.getD 0)).toOption)
+  | ["varforall", i, x] => some ((Rel.varForAllO (p i) (x.toNat?.getD 0)).toOption)
   | ["bexists", t, i, j, vs] => some (some (binaryOpWithExists (p i) (p j) (op2OfTable t) (parseVars vs)))
   | ["bforall", t, i, j, vs] => some (some (binaryOpWithForAll (p i) (p j) (op2OfTable t) (parseVars vs)))
   | ["nested", t, i, j, mask, inner] =>
     let m := mask.toNat?.getD 0
     some (some (nestedApply (p i) (p j) (fun v => (m >>> v) % 2 == 1) (op2OfTable t)
       (if inner == "or" then Gen.or_ else Gen.and_)))
-  --REL | ["select", i, ls] => some (some (select (p i) (parseLits ls)))
-  --REL | ["restrict", i, ls] => some (some (restrict (p i) (parseLits ls)))
-  --REL | ["varselect", i, x, b] => some (some (varSelect (p i) (x.toNat?.getD 0) (b == "1")))
-  --REL | ["varrestrict", i, x, b] => some (some (varRestrict (p i) (x.toNat?.getD 0) (b == "1")))
-  --REL | ["pick", i, vs] => some ((pickO (p i) (parseVars vs)).toOption)
-  --REL | ["varpick", i, x] => some ((varPickO (p i) (x.toNat?.getD 0)).toOption)
-  --REL | ["pickrandom", i, vs, fl] => some ((pickRandomO (p i) (parseVars vs) (parseBits fl)).toOption)
+  | ["select", i, ls] => some (some (select (p i) (parseLits ls)))
+  | ["restrict", i, ls] => some (some (restrict (p i) (parseLits ls)))
+  | ["varselect", i, x, b] => some (some (varSelect (p i) (x.toNat?.getD 0) (b == "1")))
+  | ["varrestrict", i, x, b] => some (some (varRestrict (p i) (x.toNat?.getD 0) (b == "1")))
+  | ["pick", i, vs] => some ((pickO (p i) (parseVars vs)).toOption)
+  | ["varpick", i, x] => some ((varPickO (p i) (x.toNat?.getD 0)).toOption)
+  | ["pickrandom", i, vs, fl] => some ((pickRandomO (p i) (parseVars vs) (parseBits fl)).toOption)
   | ["substitute", i, x, j] => some ((Ren.Subst.substitute (p i) (x.toNat?.getD 0) (p j)).toOption)
   | ["renamevar", i, o, nw] => some ((Ren.renameVariable (p i) (o.toNat?.getD 0) (nw.toNat?.getD 0)).toOption)
-  --REL | ["mkvar", x] => some (some (mkVar (numVars (pool.getD 0 #[])) (x.toNat?.getD 0)))
-  --REL | ["mknotvar", x] => some (some (mkNotVar (numVars (pool.getD 0 #[])) (x.toNat?.getD 0)))
+  | ["mkvar", x] => some (some (mkVar (numVars (pool.getD 0 #[])) (x.toNat?.getD 0)))
+  | ["mknotvar", x] => some (some (mkNotVar (numVars (pool.getD 0 #[])) (x.toNat?.getD 0)))
   | ["mktrue"] => some (some (mkTrue (numVars (pool.getD 0 #[]))))
   | ["mkfalse"] => some (some (mkFalse (numVars (pool.getD 0 #[]))))
-  --REL | ["clause", ls] => some (some (mkPartialValuation (numVars (pool.getD 0 #[])) (fromValues (parseLits ls))))
+  | ["clause", ls] => some ((NF.mkConjClause (numVars (pool.getD 0 #[])) (fromValues (parseLits ls))).toOption)
+  | ["dclause", ls] => some ((NF.mkDisjClause (numVars (pool.getD 0 #[])) (fromValues (parseLits ls))).toOption)
+  | ["satk", k, vs] => some ((VS.mkSatExactlyK (numVars (pool.getD 0 #[])) (k.toNat?.getD 0) (parseVars vs)).toOption)
+  | ["satupk", k, vs] => some ((VS.mkSatUpToK (numVars (pool.getD 0 #[])) (k.toNat?.getD 0) (parseVars vs)).toOption)
+  | ["valuation", bs] => some (some (VS.valuationBdd (parseBits bs)))
+  | ["dnf", i] => some (((NF.toDnf (p i)).bind fun cs => NF.mkDnf (numVars (p i)) cs).toOption)
+  | ["cnf", i] => some (((NF.toCnf (p i)).bind fun cs => NF.mkCnf (numVars (p i)) cs).toOption)
+  | ["optdnf", i] => some (((NF.toOptimizedDnf (p i)).bind fun cs => NF.mkDnf (numVars (p i)) cs).toOption)
   | _ => none
 
 structure Acc where
